@@ -1,8 +1,36 @@
 (* C01 - the particle-Gibbs update leaves the posterior invariant.
-   Part 1 (proved for every particle count): when no resampling happens (threshold 0) the conditional SMC
-   update is iterated sampling-importance-resampling over whole paths and leaves gamma = w * Q invariant.
-   Statements only; proofs in Proofs/IsirProofs.v. *)
-From PV Require Import Model.Isir Proofs.IsirProofs.
+
+   C01_csmc_invariant: for EVERY proposal q, positive incremental weights om, symmetric resampling criterion rs,
+   number of particles n + 1 >= 1 and schedule of update / adaptive-resampling steps, the conditional SMC kernel
+   (retained path in slot 0, multinomial resampling of the other slots, final draw in proportion to the weights)
+   leaves invariant the path measure gamma(x_1..x_T) = prod_t q(x_t | x_<t) * om(x_<=t).
+   For PhyClone's weights (C08_weights_telescope; last step carrying the log_p_one correction) that measure is
+   gamma_one(tree) * pdf(tree) on the trees compatible with the data order.
+   C01_aux_variable_invariant: drawing the data order from its conditional law (uniform over compatible orders,
+   density 1 / count: C09) and then applying a kernel invariant for the slice leaves gamma_one invariant.
+   C01_isir_invariant: the same for the threshold-0 scheme, proved separately (iterated SIR).
+
+   What is NOT proved here: that PhyClone's concrete q / om instantiate the premises (positivity of every weight,
+   proposal mass one: C08; symmetric ESS criterion) - those are checked on the implementation by the exact
+   transition matrices of harness/pv/props/C01.py. *)
+From PV Require Import Model.Isir Proofs.IsirProofs Model.Csmc Proofs.CsmcSupport Proofs.CsmcInvariant Proofs.AuxVar.
+
+Theorem C01_csmc_invariant :
+  forall (A : Type) (q : list A -> dist A) (om : list A -> Qc) (rs : @swarm A -> bool) (n : nat),
+    (forall p, 0 < om p) -> (forall p, mass (q p) = 1) -> (forall m s, rs (bring m s) = rs s) ->
+    forall (ops : list op) (f : list A -> Qc),
+      Ggam q om (S (count_upd ops)) [] (fun path => E (pg_kernel q om rs n ops path) f)
+      = Ggam q om (S (count_upd ops)) [] (fun path => f (rev path)).
+Proof. exact (@csmc_invariant). Qed.
+Print Assumptions C01_csmc_invariant.
+
+Theorem C01_aux_variable_invariant :
+  forall (S Sig : Type) (pi : dist S) (sigs : list Sig) (cd : Sig -> S -> Qc) (K : Sig -> S -> dist S),
+    (forall s, sumq (map (fun sg => cd sg s) sigs) = 1) ->
+    (forall sg f, E pi (fun s => cd sg s * E (K sg s) f) = E pi (fun s => cd sg s * f s)) ->
+    invariant pi (fun s => bind (wlist (fun sg => cd sg s) sigs) (fun sg => K sg s)).
+Proof. exact (@aux_variable_invariant). Qed.
+Print Assumptions C01_aux_variable_invariant.
 
 Theorem C01_isir_invariant :
   forall (A : Type) (Q : dist A) (w : A -> Qc),
@@ -18,7 +46,20 @@ Theorem C01_isir_total_mass :
 Proof. exact (@isir_mass). Qed.
 Print Assumptions C01_isir_total_mass.
 
-(* non-vacuity: a two-path proposal with unequal weights, three particles *)
+(* non-vacuity: two steps over a binary alphabet, history-dependent proposal and weights, always resample,
+   three particles: both sides evaluate to the same number *)
+Definition exq (p : list bool) : dist bool :=
+  match p with [] => [(true, Q2Qc (1#3)); (false, Q2Qc (2#3))] | b :: _ => if b then [(true, Q2Qc (1#4)); (false, Q2Qc (3#4))] else [(true, Q2Qc (1#2)); (false, Q2Qc (1#2))] end.
+Definition exom (p : list bool) : Qc :=
+  match p with [true] => Q2Qc (3#1) | [false] => Q2Qc (1#2) | [true; _] => Q2Qc (2#1) | _ => Q2Qc (1#3) end.
+Example C01_csmc_example :
+  let f := fun p : list bool => match p with true :: _ => 1 | _ => 0 end in
+  Qc_eq_bool (Ggam exq exom 2 [] (fun path => E (pg_kernel exq exom (fun _ => true) 2 [Res; Upd] path) f))
+             (Ggam exq exom 2 [] (fun path => f (rev path))) = true
+  /\ Qc_eq_bool (Ggam exq exom 2 [] (fun path => f (rev path))) 0 = false.
+Proof. split; vm_compute; reflexivity. Qed.
+Print Assumptions C01_csmc_example.
+
 Example C01_isir_example :
   let Q := [(0%nat, Q2Qc (1#3)); (1%nat, Q2Qc (2#3))] in
   let w := fun a : nat => if Nat.eqb a 0 then Q2Qc (3#1) else Q2Qc (1#2) in
